@@ -2,7 +2,8 @@
 from vfam import *  # noqa
 from remerkleable.core import Path
 
-THEOREMS = []
+THEOREMS = ["C08_static_eq_spec", "C08_invalid_key_rejected", "C08_path", "C08_to_gindex"]
+PARTIAL = ["C08_node (the backing node at the index has the root of the addressed sub-value) and C08_dynamic (gindex(view) / navigate_view agree with the static index) are covered by the correspondence (node_at_gindex observable against the model, model-free dynamic oracle), not yet by theorems; C08_concat at the bit level (path(concat a b) = path a ++ path b) is not a separate theorem: Path.gindex() is proved to be concat_gindices of the specification's step indices"]
 COQ_IMPORTS = ["RM.Types", "RM.ModelPaths", "RMR.RunC08"]
 COQ_FN = "RunC08.run"
 COQ_CASE_TY = "RunC08.case"
